@@ -687,11 +687,12 @@ static void op_hist(int argc, char** a)
 
 
 /* ---------- C02 ---------- */
+static unsigned seed_phase(uint64_t s) { return (unsigned)((s >> 3) ^ s); }
 /* pw <type 0|1> <dims> <pwr bits> <cfg> <gen> <seed> <span> [r]: point-wise relative round trip.
  * generators: 0 positive smooth, 1 mixed-sign smooth, 2 random magnitudes 2^[-span,span] with random signs, 3 = 2 with 10% exact zeros,
  *             4 all negative, 5 smooth positive with one exact zero, 6 zeros except one value, 7 denormal magnitudes, 8 blocks of zeros
  *             and of mixed-sign values, 9 values within a few ulps of each other (tiny relative differences), 10 smooth mixed-sign field with a
- *             few magnitudes 2^-span and zeros
+ *             few magnitudes 2^-span and zeros, 11 smooth magnitudes whose sign alternates between slices and rows (zeros on some slice origins)
  * oracle: |x' - x| <= r*|x| (evaluated exactly: long double), exact zeros stay exact zeros, no element changes sign */
 static void op_pw(int argc, char** a)
 {
@@ -717,6 +718,14 @@ static void op_pw(int argc, char** a)
 			v = (0.45 + 0.35 * sin((double)i * 0.013 + 0.3)) * (((i / 61) & 1) ? -1.0 : 1.0);      /* magnitudes in [0.1, 0.8], sign by stripes */
 			if (i % 997 == 5) v = ldexp(1.0 + u, -span); else if (i % 1201 == 7) v = -ldexp(1.0 + u, -span + 1); else if (i % 1499 == 11) v = 0.0;
 			break;
+		case 11: { /* a smooth field whose sign (and now and then an exact zero) changes from one slice of the slowest dimension to the next, and from
+		              row to row inside a slice: every predictor that reaches across a slice or row boundary meets a neighbour of the other sign */
+			size_t d0 = r[0] ? r[0] : r[1] ? r[1] : r[2] ? r[2] : r[3] ? r[3] : r[4]; size_t slice = d0 ? n / d0 : n; if (!slice) slice = 1;
+			size_t row = r[4] ? r[4] : 1; size_t layer = i / slice, rw = (i % slice) / row;
+			double sg = ((layer + (seed_phase(hx(a[5])) & 1)) & 1) ? 1.0 : -1.0; if ((rw % 5) == 3) sg = -sg;
+			v = sg * (1.5 + sin((double)i * 0.05 + 0.1 * (double)(hx(a[5]) % 13)));
+			if ((layer & 1) && (i % slice) % 97 == 0 && (hx(a[5]) & 2)) v = 0.0;
+			break; }
 		default: v = 1.0 + (double)(lcg(&s) % 7) * (ty == SZ_FLOAT ? 1.1920929e-7 : 2.220446049250313e-16); break;
 		}
 		if (ty == SZ_FLOAT) { float f = (float)v; memcpy((char*)data + i * 4, &f, 4); } else memcpy((char*)data + i * 8, &v, 8);
